@@ -2,11 +2,31 @@ use crate::engine::Property;
 
 pub mod c01;
 pub mod c03;
+pub mod c04;
+pub mod c05;
+pub mod c09;
+pub mod c09_gen;
+pub mod c10;
+pub mod c10_build;
+pub mod c10_cfg;
+pub mod c10_ref;
 pub mod c12;
 pub mod c12_checks;
 pub mod c12_model;
 pub mod c12_wrap;
 pub mod c13;
+pub mod c14;
+pub mod c14_build;
+pub mod c14_mem;
+pub mod c14_misc;
+pub mod c14_net;
+pub mod c14_tr;
+pub mod c15;
+pub mod c15_adapt;
+pub mod c15_layout;
+pub mod c17;
+pub mod c17_chk;
+pub mod c17_ref;
 pub mod t00;
 
 pub fn all() -> Vec<Box<dyn Property>> {
@@ -15,8 +35,15 @@ pub fn all() -> Vec<Box<dyn Property>> {
         Box::new(c01::C01),
         Box::new(c01::C02),
         Box::new(c03::C03),
+        Box::new(c04::C04),
+        Box::new(c05::C05),
+        Box::new(c09::C09),
+        Box::new(c10::C10),
         Box::new(c12::C12),
         Box::new(c13::C13),
+        Box::new(c14::C14),
+        Box::new(c15::C15),
+        Box::new(c17::C17),
     ]
 }
 
